@@ -26,7 +26,8 @@ pub fn material(t: &Templates, seed: u64) -> Material {
     let k1 = String::from_utf8(t.must("locked_key", &Env::new().b("sk", &sk).b("password", b"pw").b("salt", &salt))).unwrap();
     let names = vec![
         ("a".to_string(), "alice".to_string()),
-        ("b".to_string(), "Bobby Bobertson".to_string()),
+        // a name may contain the separator itself, any number of times, also at its end
+        ("b".to_string(), "Bob=by = Bobert=son=".to_string()),
         ("tab".to_string(), "bo\tris".to_string()),
         ("empty".to_string(), "".to_string()),
         ("n128".to_string(), "\u{e9}".repeat(64)),
